@@ -108,8 +108,8 @@ func (g *cgen) matchers(allowResp bool, pNone int) []string {
 		if r.Intn(4) == 0 {
 			neg = "!"
 		}
-		k := r.Intn(10)
-		if !allowResp && k >= 7 {
+		k := r.Intn(14)
+		if !allowResp && k >= 7 && k <= 11 {
 			k = r.Intn(7)
 		}
 		switch k {
@@ -134,6 +134,18 @@ func (g *cgen) matchers(allowResp bool, pNone int) []string {
 			out = append(out, neg+"has_resp")
 		case 9:
 			out = append(out, neg+"rcode "+g.pick("0", "2", "3", "0 3", "5", "2 5"))
+		case 10:
+			out = append(out, neg+"has_wanted_ans")
+		case 11:
+			if r.Intn(2) == 0 {
+				out = append(out, neg+"resp_ip "+g.pick("192.0.2.0/24", "2001:db8::/32 192.0.2.66", "192.0.2.1"))
+			} else {
+				out = append(out, neg+"cname keyword:alias domain:tgt."+g.dom)
+			}
+		case 12:
+			out = append(out, neg+"client_ip "+g.pick("192.0.2.0/24", "2001:db8::/32", "127.0.0.1 192.0.2.55"))
+		case 13:
+			out = append(out, neg+"mark "+g.pick("1", "2", "1 2"))
 		}
 	}
 	g.feat["matcher"] = true
@@ -157,7 +169,10 @@ func (g *cgen) rejectN() string {
 // atom generates one non-terminal, non-wrapping rule.
 func (g *cgen) atom(inner bool) Rule {
 	r := g.r
-	switch r.Intn(12) {
+	switch r.Intn(13) {
+	case 12:
+		g.feat["mark"] = true
+		return Rule{Matches: g.matchers(inner, 50), Exec: "mark " + g.pick("1", "2", "1 2")}
 	case 0, 1:
 		g.ensureHosts()
 		g.feat["hosts"] = true
@@ -402,10 +417,10 @@ func (g *cgen) terminalRules(depth int) []Rule {
 
 func genOutcome(r *rand.Rand, c *Comp, redirect bool) Outcome {
 	oc := Outcome{Kind: "answer", TTL: 300, Chunk: 100 + r.Intn(900)}
-	switch r.Intn(14) {
-	case 0:
+	switch r.Intn(16) {
+	case 0, 1:
 		oc.Kind = "none"
-	case 1:
+	case 2, 3:
 		oc.Kind = "error"
 	}
 	if c.Terminal != "echo" && oc.Kind != "answer" && r.Intn(3) > 0 {
